@@ -110,6 +110,9 @@ func apply(m0 *mstate, e Ev) *mstate {
 			return nil
 		}
 		n := m.write(o.Key, val, exp)
+		if o.Exp == "-1h" {
+			delete(m.recs, o.Key) // written expired: absent for every later operation (the version is used up)
+		}
 		if e.Class == "OVer" && m.bind(e.Ver, n) {
 			return m
 		}
